@@ -1,7 +1,7 @@
 CONSTANTS
-  Pairs = {"h1h1", "h1h2", "h2h1", "h2h2"}
+  Pairs = {"h1h1"}
   Segs = {"a", "%2F", "%20", "..", ".", "", "*", "a%3Fb", "a;b", "a+b", "%E4%BD%A0"}
-  MaxSegs = 2
+  MaxSegs = 1
   Queries = {"-", "?", "x=1", "x=%2F&y=", "a=b%20c&a=+", "x=1?y=2"}
   Methods = {"GET", "POST", "PUT", "DELETE", "HEAD"}
   BodyLens = {0, 1, 65536}
@@ -9,7 +9,7 @@ CONSTANTS
   Statuses = {200, 204, 404, 500}
   RespBodyLens = {0, 5, 65536}
   Retries = {0, 1}
-  Defects = {}
+  Defects = {"DrainBodyOnSend"}
 SPECIFICATION Spec
-INVARIANTS UriPreserved BodyPreserved EmitCase
+INVARIANTS UriPreserved BodyPreserved
 CHECK_DEADLOCK FALSE
